@@ -32,7 +32,7 @@ OBLIGATIONS = {"poly:star": 20, "poly:selfintersecting": 20, "poly:lattice": 20,
                "cells_inside_polygon": 10, "inside-buffer": 50, "options": 50,
                "poly:far-from-origin": 20, "poly:far-open>3": 10,
                "cells:grid-moved-after-use": 20, "cells:polygon-at-one-end": 3,
-               "cells:big-grid": 4}
+               "cells:big-grid": 4, "poly:finely-digitised": 6, "poly:near-rectangle": 20}
 
 
 def P():
@@ -106,12 +106,36 @@ def gen_polygon(rng, it):
                 pts.append(p)
             poly = np.array(pts)
         tag = "poly:lattice"
+    if it % 16 == 10:
+        # almost a rectangle: a box with one corner cut by a small chamfer, or with one
+        # vertex pushed in (a map sheet after re-projection), given open or closed
+        w_, h_ = float(rng.integers(2, 12)), float(rng.integers(2, 12))
+        f_ = float(rng.choice([4e-3, 2e-3, 1e-3, 4e-4]))
+        box = [[0.0, 0.0], [w_, 0.0], [w_, h_], [0.0, h_]]
+        j_ = int(rng.integers(0, 4))
+        cx_, cy_ = box[j_]
+        sx_, sy_ = (1 if cx_ == 0 else -1), (1 if cy_ == 0 else -1)
+        if rng.random() < 0.5:
+            cut = [[cx_ + sx_ * f_ * w_, cy_], [cx_, cy_ + sy_ * f_ * h_]]
+            if (j_ % 2 == 0):
+                cut = cut[::-1]
+            box[j_:j_ + 1] = cut
+        else:
+            box[j_] = [cx_ + sx_ * f_ * w_, cy_ + sy_ * f_ * h_]
+        poly = np.array(box, dtype=float)
+        sc = 10.0 ** rng.integers(-1, 3)
+        poly = poly * sc + np.round(rng.normal(size=2) * sc, 2)
+        if rng.random() < 0.5:
+            poly = np.vstack([poly, poly[:1]])
+        if rng.random() < 0.5:
+            poly = poly[::-1].copy()
+        tag = "poly:near-rectangle"
     rep = False
-    if it % 5 == 0 and len(poly) >= 3:
+    if it % 5 == 0 and len(poly) >= 3 and tag != "poly:near-rectangle":
         j = int(rng.integers(0, len(poly)))
         poly = np.insert(poly, j, poly[j], axis=0)
         rep = True
-    if it % 7 in (3, 5):
+    if it % 7 in (3, 5) and tag != "poly:near-rectangle":
         # map coordinates: a polygon of ordinary size far from the origin (projected
         # metres, or degrees of longitude / latitude)
         size = float(max(poly.max(axis=0) - poly.min(axis=0))) or 1.0
@@ -142,6 +166,13 @@ def gen_points(rng, poly, lattice):
     if lattice:
         c0 = np.round((lo + hi) / 2)
         pts.append(c0 + rng.integers(-10, 11, size=(40, 2)) / 2.0)
+    # close to vertices and to the corners of the extent, at several scales (a cut
+    # corner, a displaced vertex or a notch is small relative to the polygon)
+    anchors = np.vstack([poly[rng.integers(0, len(poly), size=12)],
+                         [[lo[0], lo[1]], [lo[0], hi[1]], [hi[0], lo[1]], [hi[0], hi[1]]]])
+    for a_ in anchors:
+        sc_ = size * 10.0 ** -float(rng.integers(2, 5))
+        pts.append(a_ + rng.uniform(-1, 1, size=(2, 2)) * sc_)
     return np.ascontiguousarray(np.vstack(pts), dtype=float), size
 
 
@@ -285,6 +316,91 @@ def run_cells_case(ctx, case):
     ctx.nontrivial(poly, nr, nc, xll, yll, csz)
 
 
+def parity_float(poly, pts):
+    """even-odd rule in floating point, vectorised over the edges (for outlines of tens
+    of thousands of vertices; only trusted for points well away from the boundary)"""
+    p = np.asarray(poly, float)
+    q = np.roll(p, -1, axis=0)
+    out = np.zeros(len(pts), dtype=bool)
+    for i, (x, y) in enumerate(pts):
+        cr = (p[:, 1] > y) != (q[:, 1] > y)
+        with np.errstate(all="ignore"):
+            xi = p[cr, 0] + (y - p[cr, 1]) * (q[cr, 0] - p[cr, 0]) / (q[cr, 1] - p[cr, 1])
+        out[i] = bool(np.sum(x < xi) % 2)
+    return out
+
+
+def dist_to_edges_vec(poly, pts):
+    p = np.asarray(poly, float)
+    ab = np.roll(p, -1, axis=0) - p
+    L2 = np.einsum("ij,ij->i", ab, ab)
+    d = np.empty(len(pts))
+    for i, pt in enumerate(pts):
+        with np.errstate(all="ignore"):
+            t = np.where(L2 > 0, np.einsum("ij,ij->i", pt - p, ab) / np.where(L2 > 0, L2, 1),
+                         0.0)
+        t = np.clip(t, 0, 1)
+        proj = p + t[:, None] * ab
+        d[i] = float(np.min(np.hypot(pt[0] - proj[:, 0], pt[1] - proj[:, 1])))
+    return d
+
+
+def digitised_outline(kind, nv, csz):
+    if kind == "half-disc":
+        # a box whose right-hand side is half a circle of radius 5.7 cells
+        th = np.linspace(-np.pi / 2, np.pi / 2, nv)
+        arc = np.column_stack([7.1 + 5.7 * np.cos(th), 6.9 + 5.7 * np.sin(th)])
+        poly = np.vstack([[[1.3, 1.2]], arc, [[1.3, 12.6]]])
+    elif kind == "disc":
+        th = np.linspace(0, 2 * np.pi, nv, endpoint=False)
+        poly = np.column_stack([7.2 + 5.4 * np.cos(th), 6.8 + 5.4 * np.sin(th)])
+    else:
+        # a coastline: straight sides, one side a finely digitised sine of 3 cells
+        t = np.linspace(0, 1, nv)
+        wave = np.column_stack([1.2 + 11.5 * t, 9.3 + 3.1 * np.sin(4 * np.pi * t)])
+        poly = np.vstack([wave, [[12.7, 1.1], [1.2, 1.4]]])
+    return poly * csz
+
+
+def run_digitised_case(ctx, case):
+    """outlines digitised much more finely than the grid (vertex spacing 1e-4 .. 1e-2 of
+    a cell, four to five orders of magnitude above the tolerance)"""
+    from hydrodiy.gis.grid import Grid
+    gu = P()
+    csz = float(case["csz"])
+    poly = digitised_outline(case["outline"], int(case["nv"]), csz)
+    if case.get("reverse"):
+        poly = poly[::-1].copy()
+    nr = nc = 14
+    ctx.evaluated()
+    ctx.tag("poly:finely-digitised")
+    gr = Grid("g", nc, nr, cellsize=csz, xllcorner=0.0, yllcorner=0.0)
+    centres = np.array([[(k + 0.5) * csz, (nr - 1 - r + 0.5) * csz]
+                        for r in range(nr) for k in range(nc)])
+    d = dist_to_edges_vec(poly, centres)
+    judged = d > 1e-3 * csz
+    exp = parity_float(poly, centres)
+    ctx.api("cells_inside_polygon")
+    df = gr.cells_inside_polygon(poly.copy())
+    got = np.zeros(nr * nc, dtype=bool)
+    got[df["cell"].values.astype(int)] = True
+    diff = np.where(judged & (got != exp))[0]
+    ctx.check("cells_inside.digitised", len(diff) == 0,
+              "cells_inside_polygon|set|finely-digitised", case,
+              lambda: {"n_wrong": int(len(diff)), "cell": int(diff[0]),
+                       "centre": centres[diff[0]].tolist(),
+                       "reported": bool(got[diff[0]]), "expected": bool(exp[diff[0]]),
+                       "dist_to_outline_in_cells": float(d[diff[0]] / csz)})
+    ctx.api("points_inside_polygon")
+    g2 = np.asarray(gu.points_inside_polygon(centres.copy(), poly.copy())).astype(bool)
+    diff2 = np.where(judged & (g2 != exp))[0]
+    ctx.check("inside.digitised", len(diff2) == 0,
+              "points_inside_polygon|even-odd|finely-digitised", case,
+              lambda: {"n_wrong": int(len(diff2)), "point": centres[diff2[0]].tolist()})
+    ctx.evaluated(int(judged.sum()))
+    ctx.nontrivial("digitised", case["outline"], case["nv"], csz)
+
+
 def run_big_grid(ctx):
     """grids of more than a million cells (a 1000 x 1250 raster and a 2^20 + 1 cell one):
     small non-convex polygons placed at the start, across cell number 10^6 / 2^20 and at
@@ -326,6 +442,16 @@ def run_big_grid(ctx):
 def run(ctx):
     if ctx.shard == 1 % ctx.nshards:
         run_big_grid(ctx)
+    dig = [("half-disc", 24000, 1.0), ("disc", 50000, 1.0), ("coast", 30000, 250.0),
+           ("half-disc", 3000, 0.05), ("disc", 6000, 1000.0), ("coast", 100000, 1.0)]
+    if ctx.tier == "thorough":
+        dig += [("half-disc", 200000, 1.0), ("disc", 400000, 0.5), ("coast", 12000, 1.0),
+                ("half-disc", 60000, 25.0)]
+    for j, (ol, nv, csz) in enumerate(dig):
+        if ctx.nshards > 1 and j % ctx.nshards != ctx.shard % ctx.nshards:
+            continue
+        run_digitised_case(ctx, {"kind": "digitised", "outline": ol, "nv": nv, "csz": csz,
+                                 "reverse": bool(j % 2)})
     rng = ctx.rng(1)
     nrep = 60 if ctx.tier == "quick" else 4000
     for it0 in range(nrep):
@@ -365,6 +491,8 @@ def run(ctx):
 def replay(ctx, case):
     if case["kind"] == "bigcells":
         return run_big_grid(ctx)
+    if case["kind"] == "digitised":
+        return run_digitised_case(ctx, case)
     if case["kind"] == "pip":
         run_case(ctx, case)
     else:
